@@ -336,6 +336,9 @@ def run_case(case, rec, ctx):
             # where the symbolic route is already NaN (0/0 for the degenerate angles of a massless particle) that is judged
             # by acos_argument above; here only: wherever route A is finite, route B must agree
             ok = (np.abs(vb - va) <= tol) | (tol > 1e-3) | ~inside | ~np.isfinite(va)
+            # an angle within 1e-6 of 0 or pi is acos(+-1 -+ 1e-12 or less): whether the rounded argument lands a few ulp inside
+            # or outside [-1, 1] (NaN) differs between two evaluation orders of the same formula; judged by acos_argument, not here
+            ok |= np.isnan(vb) & (np.abs(np.sin(va)) < 1e-6)
             if key[0] == "zeta" and 1 <= key[1] <= 3 and ms[key[1] - 1] == 0.0:
                 # alignment angle of a massless particle: degenerate (0/0 in the formula, exactly so with an exact zero mass; route A
                 # returns rounding noise ~1e-8 there).  Counted, not judged - as in the sum-rule check above.
